@@ -90,6 +90,14 @@ def cases(tier, seed, args):
                         L=[int(rng.integers(1, 3))] * int(rng.integers(0, 2)), D=int(rng.integers(2, 4)), N=int(rng.integers(6, 14)),
                         saliency=bool(i % 2), seed=int(rng.integers(1 << 30)), maxc=[50.0, 20.0, 500.0, 200.0][(i // 7) % 4] if i % 7 != 6 else [500.0, 500.0, 30.0][(i // 7) % 3],
                         concentrated=bool(i % 3 == 0)))
+    # complex Gaussian trainer: saliency on every scale (the estimator is a ratio)
+    for i in range(6 if q else 36):
+        out.append(dict(t='single', dist='cgauss', L=[[], [2]][i % 2], D=int(rng.integers(2, 4)), N=int(rng.integers(6, 12)), saliency=bool(i % 3 != 2),
+                        seed=int(rng.integers(1 << 30)), maxc=500.0, concentrated=bool(i % 2), sal_scale=[1.0, 1e-18, 1e12, 1e-30][(i // 2) % 4]))
+    # Bingham trainer with finite limits on sharply concentrated data in three and more dimensions
+    for i in range(4 if q else 24):
+        out.append(dict(t='single', dist='bingham', L=[], D=3 + i % 2, N=int(rng.integers(10, 16)), saliency=bool(i % 2), seed=int(rng.integers(1 << 30)),
+                        maxc=[20.0, 50.0][i % 2], concentrated=True, spread=[0.02, 0.05][(i // 2) % 2]))
     # directional trainers: every dimension x concentration limit x spread (estimate below, near and above the limit)
     for i in range(18 if q else 108):
         dist = ['vmf', 'watson'][i % 2]
@@ -294,6 +302,12 @@ def _single(case):
     elif dist == 'vmf':
         m, exc = call(VonMisesFisherTrainer().fit, y, saliency=sal, max_concentration=case['maxc'])
         comp, z, zc = 'vmf', flat(ml.unit(y)), False
+    elif dist == 'cgauss':
+        from pb_bss.distribution.complex_circular_symmetric_gaussian import ComplexCircularSymmetricGaussianTrainer
+        if sal is not None:
+            sal = sal * case.get('sal_scale', 1.0)
+        m, exc = call(ComplexCircularSymmetricGaussianTrainer().fit, y, saliency=sal)
+        comp, z, zc = 'cgauss', flatz(y), True
     elif dist == 'bingham':
         from pb_bss.distribution.complex_bingham import ComplexBinghamTrainer
         kwb = {} if case['maxc'] >= 500.0 else dict(max_concentration=case['maxc'])
@@ -310,7 +324,7 @@ def _single(case):
     def lift(f):     # insert the class axis K = 1 at its schema position
         cax = dict(gaussian_mean=-2, gaussian_covariance_full=-3, gaussian_covariance_diagonal=-2, gaussian_covariance_spherical=-1,
                    watson_mode=-2, watson_concentration=-1, vmf_mean=-2, vmf_concentration=-1, cacg_eigenvectors=-3,
-                   cacg_eigenvalues=-2, bingham_eigenvalues=-2)[f['name']]
+                   cacg_eigenvalues=-2, bingham_eigenvalues=-2, cgauss_covariance=-3)[f['name']]
         sh = list(f['t']['shape'])
         sh.insert(len(sh) + 1 + cax, 1)
         return dict(f, t=dict(f['t'], shape=sh))
@@ -348,6 +362,8 @@ def _raw_dist(m):
         return [ml._field('cacg_eigenvectors', m.covariance_eigenvectors, True), ml._field('cacg_eigenvalues', m.covariance_eigenvalues)]
     if n == 'ComplexWatson':
         return [ml._field('watson_mode', m.mode, True), ml._field('watson_concentration', m.concentration)]
+    if n == 'ComplexCircularSymmetricGaussian':
+        return [ml._field('cgauss_covariance', m.covariance, True)]
     if n == 'ComplexBingham':
         return [ml._field('cacg_eigenvectors', m.covariance_eigenvectors, True), ml._field('bingham_eigenvalues', m.covariance_eigenvalues)]
     if n == 'VonMisesFisher':
